@@ -3,12 +3,13 @@ from __future__ import annotations
 
 from fractions import Fraction as F
 
-from .. import core, rulegen, rules, ruleprops
+from .. import core, rulegen, rules, ruleprops, solverbox
 from ..core import Case
 from ..ruleprops import violation
 
 RULE = ("seeded structured elections x rule configurations (rule, measure, tie rule, Profile/MultiProfile, resolute/irresolute, "
-        "initial allocation); plus a high-volume predicate-only stream of small elections with a binding budget (3-7 projects of varied "
+        "initial allocation); the ILP path of the welfare maximiser in a child process (general elections and the corners: nothing left to decide, "
+        "no project, empty ballots; solver faults discarded); plus a high-volume predicate-only stream of small elections with a binding budget (3-7 projects of varied "
         "cost, budget between the dearest project and the total: several purchase rounds, every rule in turn); "
         "non-trivial = at least 2 projects, at least one project selected, distinct by canonical case+cfg hash")
 ASSUMPTIONS = ["exact-arithmetic mode (FRACTION = gmpy2)", ">=1 voter, positive budget, non-negative exact costs, feasible initial allocation"]
@@ -70,6 +71,7 @@ def run(ctx):
     # corner stream: no project left to decide, all-zero costs, empty ballots
     ruleprops.run_items(ctx, corner_pairs(ctx, ctx.scale(120, 600)), predicate, nontrivial)
     wrapper_stream(ctx, ctx.scale(1500, 10000))
+    ilp_stream(ctx, ctx.scale(160, 1500))
     # binding-budget volume stream (predicate only, no model run): overshooting by a rule is a rare event on random
     # elections (1 in 10^3), so it is looked for where it can show — many small multi-round elections with a tight budget
     ruleprops.run_items(ctx, tight_pairs(ctx, ctx.scale(20000, 100000)), predicate, nontrivial, compare=False, keep=False)
@@ -120,6 +122,69 @@ def wrapper_stream(ctx, n):
                                                 case, cfg, impl=sorted(W), sig=sig))
         if len(case.projects) >= 2 and any(len(o) > 0 for o in outs):
             ctx.nontrivial.add(case.key() + str(sorted(cfg.items(), key=str)))
+
+
+def ilp_pairs(ctx, n):
+    """the exact welfare maximiser with the OTHER solver (ILP): general elections, and the corners of the statement — every
+    project already in the initial allocation, an instance without projects, empty ballots, free projects only"""
+    rng = ctx.rng
+    corners = corner_pairs(ctx, n)
+    for k in range(n):
+        if k % 2:
+            case, cfg = next(corners)
+            init = cfg.get("init") if cfg.get("rule") != "mes" else None
+            cfg = rulegen.gen_rule_cfg(rng, case, rules=("maxw",), allow_refuse=False)
+            if init is not None:
+                cfg["init"] = init
+            elif k % 8 == 1:
+                # everything that fits, greedily, is already selected
+                tot, init = F(0), []
+                for nm, c in case.projects:
+                    if tot + c <= case.budget:
+                        init.append(nm)
+                        tot += c
+                cfg["init"] = init
+        else:
+            case = core.gen_election(rng, btypes=("app", "app", "card", "cum", "ord"), m_lo=0, m_hi=6)
+            cfg = rulegen.gen_rule_cfg(rng, case, rules=("maxw",), allow_refuse=False)
+        yield case, dict(cfg, algo="ilp", res=rng.random() < 0.5)
+
+
+def ilp_stream(ctx, n):
+    """ILP path of the welfare maximiser, in a child process (a CBC abort or an answer that is invalid for the program it was
+    given is a solver fault: discarded, as the statement says); the four clauses and 'returns normally' on what it returns"""
+    box = solverbox.Box()
+    try:
+        for case, cfg in ilp_pairs(ctx, n):
+            if ctx.budget_s is not None and ctx.elapsed() > ctx.budget_s:
+                break
+            ans = box.ask({"case": case.to_json(), "cfg": ruleprops.cfg_json(cfg)})
+            ctx.evaluations += 1
+            free = len(case.names) - len(set(cfg.get("init") or []))
+            ctx.count("rule", "maxw-ilp-" + ("res" if cfg["res"] else "irres") + ("-nothing-to-decide" if free == 0 else ""))
+            if ans.startswith("solver-fault"):
+                ctx.solver_faults += 1
+                continue
+            if ans.startswith("harness-error"):
+                raise core.DriverError("ILP worker: " + ans)
+            if ans.startswith("err"):
+                parsed = ("err", ans[4:].strip())
+            else:
+                body = ans[2:].strip()
+                if cfg["res"]:
+                    parsed = ("ok", [int(x) for x in body.split(",") if x != ""])
+                else:
+                    parsed = ("oks", [[int(x) for x in part.split(",") if x != ""] for part in body.split("|")])
+            it = ruleprops.Item(case, dict(cfg), None, parsed, ans, None)
+            vs = predicate(it)
+            for v in vs:
+                v.setdefault("sig", {})["algo"] = "ilp"
+            ctx.violations.extend(vs)
+            if nontrivial(it):
+                ctx.nontrivial.add(case.key() + "ilp" + str(cfg["res"]))
+            ctx.sample(f"maxw-ilp res={cfg['res']} init={cfg.get('init')} on {case.enc_common()} -> {ans}", cap=6)
+    finally:
+        box.close()
 
 
 def corner_pairs(ctx, n):
